@@ -175,4 +175,18 @@ CHECKS["C19"] = {
     "parts": [{"bin": "C19_suspend_pu"}],
 }
 
+_C15_TOPOS = [("synthetic_1x2x2", "pack:1 core:2 pu:2"), ("synthetic_2x2x1", "pack:2 core:2 pu:1"), ("synthetic_1x3x2", "pack:1 core:3 pu:2"),
+              ("synthetic_1x2x3", "pack:1 core:2 pu:3"), ("synthetic_2x2x2", "pack:2 core:2 pu:2"), ("synthetic_1x4x2", "pack:1 core:4 pu:2"),
+              ("synthetic_2x4x1", "pack:2 core:4 pu:1"), ("synthetic_2x4x2", "pack:2 core:4 pu:2")]
+CHECKS["C15"] = {
+    "registered": True,
+    "engine": "seqx",
+    "technique": "exhaustive configuration grid: synthetic hwloc topologies x every process mask x binding modes x thread counts through the real affinity_data::init, plus a live grid on the real machine reading each worker's OS affinity",
+    "level_text": "For 8 synthetic topologies (4 to 16 PUs, with and without SMT, 1-2 sockets), every non-empty process mask (16 PUs: a structured family in the quick tier, all 65535 in the thorough tier), the binding modes compact / scatter / balanced / numa-balanced / none and every thread count from 1 to |mask|+1 are pushed through the real affinity_data::init: each worker must get exactly one PU inside the mask, no two workers the same PU, the reported PU number must be the bound one, |mask|+1 threads must be rejected and 'none' must leave workers unbound. Live grid: thread counts x 4 modes x 1-2 pools on the real 16-PU machine, each worker's sched_getaffinity read from a task and compared with what pika reports; pool sizes must add up.",
+    "level_note": "Topologies up to 16 PUs with homogeneous cores; process masks are injected through topology::set_cpubind_mask_main_thread (what --pika:process-mask does); pu_offset/pu_step left at their defaults; explicit affinity descriptions (thread:0=core:1...) are not enumerated.",
+    "rule": "seqx grid over topologies x masks x modes x thread counts; live grid",
+    "parts": [{"bin": "C15_affinity", "part": n, "args": ["--only", n], "env": {"HWLOC_SYNTHETIC": t, "HWLOC_THISSYSTEM": "0"}} for n, t in _C15_TOPOS]
+             + [{"bin": "C15_affinity", "part": "live_grid", "args": ["--only", "live_grid"]}],
+}
+
 PENDING = {}
